@@ -1,2 +1,131 @@
-(* C01 — theorems are added below as the proofs land. *)
-From SC Require Import Base.Prelude Resource.Impl Resource.Spec Resource.Pull.
+(* C01 — Value/Collection conform to a sequential register/map specification.
+   Theorems only.  All are stated for an ARBITRARY message algebra (message type, proto.Equal,
+   field-mask writer with its Validate and Merge, read-mask filter), arbitrary callbacks
+   (interceptors, checks, id interceptor: plain functions), arbitrary clock, and any strict total
+   order on ids; they are instantiated with the flat algebra of Resource/Flat.v for the
+   correspondence (C01_instance_* shows the hypotheses hold there). *)
+From SC Require Import Base.Prelude Resource.Impl Resource.Spec Resource.ImplProofs Resource.SpecProofs
+  Resource.Flat Resource.FlatProofs Resource.Judge.
+
+Section C01.
+  Variable M : Type.
+  Variable m_eqb : M -> M -> bool.
+  Variable m_empty : M.
+  Variable writer : Type.
+  Variable w_validate : writer -> option Z.
+  Variable w_merge : writer -> M -> M -> M.
+  Variable rmask : Type.
+  Variable r_filter : rmask -> M -> M.
+  Variable clock_at : Z -> Z.
+  Variable str_ltb : string -> string -> bool.
+  Variable idfun : option (string -> string).
+  Hypothesis m_eqb_refl : forall m, m_eqb m m = true.
+  Hypothesis ltb_irrefl : forall a, str_ltb a a = false.
+  Hypothesis ltb_trans : forall a b c, str_ltb a b = true -> str_ltb b c = true -> str_ltb a c = true.
+  Hypothesis ltb_total : forall a b, str_ltb a b = false -> str_ltb b a = false -> a = b.
+
+  Notation impl_step := (impl_step m_eqb m_empty w_validate w_merge r_filter clock_at str_ltb idfun).
+  Notation spec_step := (spec_step m_eqb m_empty w_validate w_merge r_filter clock_at str_ltb idfun).
+  Notation spec_c_update := (spec_c_update m_eqb m_empty w_validate w_merge clock_at str_ltb idfun).
+  Notation spec_c_delete := (spec_c_delete m_eqb clock_at idfun).
+
+  (* every call sequence: the code-shaped model returns what the plain reference returns, emits
+     the same events and leaves the same contents *)
+  Theorem C01_collection_refines_reference : forall ops s,
+    run impl_step s ops = run spec_step s ops.
+  Proof. intros. apply impl_run_is_spec. Qed.
+
+  Theorem C01_value_refines_reference : forall (s : vstate M) msg (o : wopts M writer),
+    v_set m_eqb m_empty w_validate w_merge clock_at s msg o =
+    spec_v_set m_eqb m_empty w_validate w_merge clock_at s msg o.
+  Proof. intros. apply v_set_is_spec. exact m_eqb_refl. Qed.
+
+  (* a failing call changes nothing and emits nothing *)
+  Theorem C01_failed_call_is_noop : forall s op s' out ev,
+    spec_step s op = (s', out, ev) -> failed out = true -> s' = s /\ ev = [].
+  Proof. intros. eapply failed_step_is_noop; eauto. Qed.
+
+  (* contents stay sorted along every call sequence, and List is sorted by id *)
+  Theorem C01_reachable_sorted : forall ops s s' outs,
+    run spec_step s ops = (s', outs) -> sorted str_ltb (c_items s) -> sorted str_ltb (c_items s').
+  Proof. intros. eapply run_keeps_sorted; eauto. Qed.
+
+  Theorem C01_list_sorted : forall (s : cstate M) mask inc,
+    sorted str_ltb (c_items s) -> sorted_keys str_ltb (map fst (c_list r_filter s mask inc)).
+  Proof. intros. apply list_is_sorted; auto. Qed.
+
+  (* a write is exactly one map update (or nothing), described by exactly one event *)
+  Theorem C01_update_is_map_update : forall s id0 msg (o : wopts M writer) cands s' r ev cb,
+    spec_c_update s id0 msg o cands = (s', r, ev, cb) ->
+    (exists code, r = inr code /\ s' = s /\ ev = []) \/
+    (exists id gen nv t,
+        r = inl nv /\ resolves idfun s id0 o cands id gen /\
+        lookup id (c_items s') = Some (mkItem nv t) /\
+        (forall id', id' <> id -> lookup id' (c_items s') = lookup id' (c_items s)) /\
+        t = match wo_time o with Some t0 => t0 | None => clock_at (c_reads s) end /\
+        ev = [mkCE id t (match lookup id (c_items s) with Some _ => KUpdate | None => KAdd end)
+                   (option_map (@it_body M) (lookup id (c_items s))) (Some nv)] /\
+        nv = new_value m_empty w_merge o msg (Some (match lookup id (c_items s) with Some it => it_body it | None => m_empty end)) /\
+        cb_ids cb = (match gen with Some g => if wo_id_cb o then [g] else [] | None => [] end) /\
+        (match lookup id (c_items s) with Some _ => wo_expect_absent o = false | None => wo_create o = true end)).
+  Proof. intros. eapply update_outcomes; eauto. Qed.
+
+  (* Get after a successful write returns the written value; a generated id is non-empty, unused
+     (seen through the id interceptor), reported exactly once and addresses the new item *)
+  Theorem C01_get_after_write_and_generated_id : forall s id0 msg (o : wopts M writer) cands s' nv ev cb,
+    spec_c_update s id0 msg o cands = (s', inl nv, ev, cb) ->
+    (String.eqb (apply_id idfun id0) "" && wo_gen_id o = false -> c_get r_filter idfun s' id0 None = Some nv) /\
+    (String.eqb (apply_id idfun id0) "" && wo_gen_id o = true ->
+     exists g, first_fresh idfun cands 10 (c_items s) = Some g /\ g <> ""%string /\
+               lookup (apply_id idfun g) (c_items s) = None /\
+               cb_ids cb = (if wo_id_cb o then [g] else []) /\
+               c_get r_filter idfun s' g None = Some nv).
+  Proof. intros. eapply get_after_update; eauto. Qed.
+
+  Theorem C01_delete_is_map_remove : forall s id0 (o : wopts M writer) s' body ev,
+    spec_c_delete s id0 o = (s', Some body, None, ev) -> sorted str_ltb (c_items s) ->
+    c_get r_filter idfun s' id0 None = None /\
+    (forall id', id' <> apply_id idfun id0 -> lookup id' (c_items s') = lookup id' (c_items s)).
+  Proof. intros. eapply get_after_delete; eauto. Qed.
+End C01.
+
+Print Assumptions C01_collection_refines_reference.
+Print Assumptions C01_value_refines_reference.
+Print Assumptions C01_failed_call_is_noop.
+Print Assumptions C01_reachable_sorted.
+Print Assumptions C01_list_sorted.
+Print Assumptions C01_update_is_map_update.
+Print Assumptions C01_get_after_write_and_generated_id.
+Print Assumptions C01_delete_is_map_remove.
+
+(* the executed instance satisfies the hypotheses *)
+Theorem C01_instance_hypotheses :
+  (forall m, fmsg_eqb m m = true) /\ (forall a, str_ltb a a = false) /\
+  (forall a b c, str_ltb a b = true -> str_ltb b c = true -> str_ltb a c = true) /\
+  (forall a b, str_ltb a b = false -> str_ltb b a = false -> a = b).
+Proof. exact (conj fmsg_eqb_refl (conj str_ltb_irrefl (conj str_ltb_trans str_ltb_total))). Qed.
+Print Assumptions C01_instance_hypotheses.
+
+(* the pinned commit stored a generated id without passing it through the id interceptor: the id
+   reported to the caller was then not found by Get (fixed in /repo) *)
+Theorem C01_generated_id_v0_refuted :
+  exists cands,
+    let '(s', r, _, cb) := c_update_v0 fmsg_eqb fzero fw_validate fw_merge fclock str_ltb (Some lower)
+                             (mkC [] 0) "" (mkF 1 0 0)
+                             (to_wopts None (mkFWO None None None None false None false None false None None true false true true))
+                             cands in
+    exists g, cb_ids cb = [g] /\ c_get fr_filter (Some lower) s' g None = None /\ r = inl (mkF 1 0 0).
+Proof. exists ["AbC"%string]. vm_compute. exists "AbC"%string. auto. Qed.
+
+(* non-vacuity: a concrete run exercising creation, a failed precondition and a delete *)
+Example C01_nonvacuous :
+  let o := mkFWO None None None None false None false None false None None true false false false in
+  let ops := [FUpdate "b" (mkF 1 2 0) o []; FAdd "a" (mkF 3 0 0) o []; FAdd "a" (mkF 4 0 0) o [];
+              FDelete "b" o; FList None None] in
+  snd (run (f_spec_step None) c_init (map (to_cop None) ops)) =
+  [(RWrite (inl (mkF 1 2 0)) cb_none, [mkCE "b" 1000 KAdd None (Some (mkF 1 2 0))]);
+   (RWrite (inl (mkF 3 0 0)) cb_none, [mkCE "a" 1010 KAdd None (Some (mkF 3 0 0))]);
+   (RWrite (inr 6) cb_none, []);
+   (RDelete (Some (mkF 1 2 0)) None, [mkCE "b" 1020 KRemove (Some (mkF 1 2 0)) None]);
+   (RList [("a"%string, mkF 3 0 0)], [])].
+Proof. vm_compute. reflexivity. Qed.
